@@ -1494,6 +1494,10 @@ class Gen:
                 op = self.change_op(rx, sl.model, rng.choice(("set_achange", "set_bchange")))
                 if op:
                     yield op
+        if rng.random() < 0.5:
+            # hashing / comparing builds reactant, product and transition state
+            # internally; decomposition afterwards must still be faithful
+            yield dict(k="q", s=rx, q=rng.choice(("hash", "eq_self")))
         seq = []
         for _ in range(rng.randint(1, 4)):
             seq.append(rng.choice(("reactant", "product", "reverse", "reverse2")))
@@ -1502,7 +1506,9 @@ class Gen:
                 break
             d = self.slot_id()
             if k in ("reactant", "product"):
-                yield dict(k=k, src=rx, dst=d, keep=rng.random() < 0.7)
+                sl_ = self.w.graph(rx)
+                after = rng.choice((None, None, "hash", "eq")) if sl_ is not None and sl_.model.sane() else None
+                yield dict(k=k, src=rx, dst=d, keep=rng.random() < 0.7, after=after)
                 if self.w.graph(d) is not None:
                     yield dict(k="probe_pair", s1=d, s2=r if k == "reactant" else p)
                     yield dict(k="drop", s=d)
